@@ -71,6 +71,7 @@ def C18(prog: Program, run: Run, tier: str) -> None:
         cog.rule_accessor(prog),
         "R-ACCESSOR limit properties read their own configuration key; constant-folded default max > min",
     )
+    run.add(cog.rule_filesink(prog), "R-MPU SINK file sink appends to the destination only after the first part replaced it, walks the remaining parts in the given order and unlinks them; receipts name part number and path")
     run.floor("R-LOCK|", 8)
     run.floor("R-ACCESSOR|", 10)
 
@@ -157,7 +158,7 @@ def C05(prog: Program, run: Run, tier: str) -> None:
 def C07(prog: Program, run: Run, tier: str) -> None:
     run.add(specific.rule_displ(prog), "R-DISPL the edge-length test is a translation-invariant (squared) length over both axes compared with the (squared) resolution; vertices retained; holes densified; all geometry kinds dispatched")
     run.add(guards.to_crs_preconditions(prog), "R-GUARDSEQ same CRS returns the receiver, CRS-less raises ValueError, both before any transform; the densified geometry is what gets projected")
-    run.add([i for i in valueobj.rule_cache(prog) if "ORDER" in i.construct or "ALWAYSXY" in i.construct or "KEYCOMPLETE" in i.construct], "R-CACHE source/target pass-through and transformer cache key completeness")
+    run.add([i for i in valueobj.rule_cache(prog) if "KEYCANON" not in i.construct], "R-CACHE source/target pass-through, transformer cache key completeness, id()-keyed transformer cache pinned by a plain never-cleared CRS cache")
     run.add(_only(crsguard.rule_retag(prog, {"geom"}), "geom:Geometry.to_crs", "geom:Geometry._to_crs", "geom:Geometry.segmented", "geom:Geometry.transform"), "R-RETAG result tagged with the target CRS")
     run.add(_fwd(prog, {"geom"}), FWD_DESC)
     run.floor("R-DISPL|", 4)
